@@ -67,6 +67,9 @@ class Result(object):
         m = re.search(r"Error: Invariant (\S+) is violated", out)
         if m:
             self.violation = m.group(1)
+        m = re.search(r"Error: The invariant of (\S+) is equal to FALSE", out)
+        if m:
+            self.violation = m.group(1)
         m = re.search(r"Error: Action property (\S+) is violated", out)
         if m:
             self.violation = m.group(1)
